@@ -295,6 +295,11 @@ def gangOK (s : Core) : Option String :=
             else if r.tg != i.tg then some s!"replacement-other-taskgroup {i.key}"
             else if !(fitInStd (some i.res) (some r.res)) then some s!"replacement-larger-than-placeholder {i.key}"
             else none
+      -- the real half of a swap in flight waits for the confirmation of a placeholder that is still bound
+      else if i.inflightReal then
+        match i.release.bind (fun pk => a.items.find? (·.key == pk)) with
+        | some p => if p.bound && p.ph then none else some s!"inflight-real-without-placeholder {i.key}"
+        | none => some s!"inflight-real-without-placeholder {i.key}"
       else none))
 
 def lifecycleOK (s : Core) : Option String :=
